@@ -302,8 +302,19 @@ def run(chk):
         try:
             with warnings.catch_warnings():
                 warnings.simplefilter("ignore")
-                std_ = emf.EvolvedMF.from_powerlaw(**base_, **opts)
-                wbh_ = emf.EvolvedMFWithBH.from_powerlaw(f_BH=[0.0] * len(ages_), **base_, **opts)
+                if rng.random() < 0.5:
+                    std_ = emf.EvolvedMF.from_powerlaw(**base_, **opts)
+                    wbh_ = emf.EvolvedMFWithBH.from_powerlaw(f_BH=[0.0] * len(ages_), **base_, **opts)
+                else:
+                    # the primary constructors, handed an IMF object whose OWN N0 is not the N0 of the model
+                    from ssptools.masses import PowerLawIMF as PLI_
+                    own_ = float(rng.choice([1.0, 1e6, 7.0]))
+                    label_["through"] = "primary constructors, IMF object with its own N0 = %g" % own_
+                    o2_ = {k_: v_ for k_, v_ in opts.items() if k_ != "esc_rate"}
+                    std_ = emf.EvolvedMF(PLI_(base_["m_breaks"], base_["a_slopes"], N0=own_), nb_, opts["FeH"] if "FeH" in opts else -1.0, ages_, opts["esc_rate"],
+                                         **{k_: v_ for k_, v_ in o2_.items() if k_ != "FeH"})
+                    wbh_ = emf.EvolvedMFWithBH(PLI_(base_["m_breaks"], base_["a_slopes"], N0=own_), nb_, opts["FeH"] if "FeH" in opts else -1.0, ages_, opts["esc_rate"],
+                                               [0.0] * len(ages_), **{k_: v_ for k_, v_ in o2_.items() if k_ != "FeH"})
         except ValueError as e:
             chk.notes.append("standard / BH-fraction pair raised (%s)" % str(e)[:60])
             continue
